@@ -507,10 +507,13 @@ impl<'a> DebugWithDb<'a> for GeneratedFunction<'a> {
         match self.key {
             GeneratedFunctionKey::Loop(expr_ptr) => {
                 let mut func_ptr = expr_ptr.untyped();
+                // A loop inside an inline macro expansion (e.g. `array![{ while .. {} }]`) has no
+                // function ancestor in its (generated) file - stop at the root in this case.
                 while !matches!(
                     func_ptr.kind(db),
                     SyntaxKind::FunctionWithBody | SyntaxKind::TraitItemFunction
-                ) {
+                ) && func_ptr.0.parent(db).is_some()
+                {
                     func_ptr = func_ptr.parent(db)
                 }
 
